@@ -125,7 +125,7 @@ class RealSession:
         self.clock.tick(d)
         return ["ok"]
 
-    def op_authz(self, user, client, scope, rtype="code", extra=None):
+    def op_authz(self, user, client, scope, rtype="code", extra=None, cookie=None):
         srv.set_user(self.server, user)
         req = {"client_id": client, "redirect_uri": "https://%s.example.com/cb" % client,
                "response_type": rtype, "scope": " ".join(scope), "state": "st", "nonce": "nonce-%d" % len(self.tokens)}
@@ -138,7 +138,8 @@ class RealSession:
         e = self.err_of(preq)
         if e:
             return ["err", e]
-        res = ep.process_request(preq)
+        res = ep.process_request(preq, http_info={"cookie": cookie} if cookie else None)
+        self.last_cookie = res.get("cookie") if isinstance(res, dict) else None
         self.find_new_grants()
         new = self.harvest()
         ra = res.get("response_args") if isinstance(res, dict) else res
